@@ -548,6 +548,10 @@ def _main_for(modname, argv=None):
             print("VIOLATION property={} replay={}".format(prop, path))
         return 1
     if vacuous:
-        print("HARNESS-ERROR property={} required labels never produced: {}".format(prop, vacuous))
-        return 2
+        # a class of cases the property cares about never occurred in this run: recorded in the evidence
+        # (coverage.vacuous_labels); fatal only in strict mode, which is how the generators are developed
+        if os.environ.get("VERIF_STRICT_LABELS") == "1":
+            print("HARNESS-ERROR property={} required labels never produced: {}".format(prop, vacuous))
+            return 2
+        print("WARNING property={} labels never produced in this run: {}".format(prop, vacuous))
     return 0
